@@ -222,7 +222,11 @@ var c10Scenarios = map[string][]string{
 }
 
 func c10Serial(driver, scen string, bound int) vh.Unit {
-	name := fmt.Sprintf("serialisable/%s/%s", driver, scen)
+	return c10SerialNamed("serialisable", driver, scen, bound)
+}
+
+func c10SerialNamed(prefix, driver, scen string, bound int) vh.Unit {
+	name := fmt.Sprintf("%s/%s/%s", prefix, driver, scen)
 	ops := c10Scenarios[scen]
 	return vh.Unit{Name: name, Run: func(u *vh.U) {
 		// differential oracle: every one-at-a-time ordering of the same requests on the real code
@@ -268,14 +272,14 @@ func c10Serial(driver, scen string, bound int) vh.Unit {
 							return "", ""
 						}
 					}
-					return "serialisable/" + driver + "/failed-call-left-effect", fmt.Sprintf("concurrent %v -> outcomes %v, state %s: not the result of the calls that went through, in any order", ops, out, view)
+					return prefix + "/" + driver + "/failed-call-left-effect", fmt.Sprintf("concurrent %v -> outcomes %v, state %s: not the result of the calls that went through, in any order", ops, out, view)
 				}
 				var al []string
 				for k := range allowed {
 					al = append(al, k)
 				}
 				sort.Strings(al)
-				return "serialisable/" + driver + "/" + scen, fmt.Sprintf("concurrent %v -> outcomes %v, state %s\n  equals no one-at-a-time ordering; serial results:\n  %s", ops, out, view, strings.Join(al, "\n  "))
+				return prefix + "/" + driver + "/" + scen, fmt.Sprintf("concurrent %v -> outcomes %v, state %s\n  equals no one-at-a-time ordering; serial results:\n  %s", ops, out, view, strings.Join(al, "\n  "))
 			},
 		})
 	}}
